@@ -256,7 +256,13 @@ def run(ctx):
             ctx.violation("harness:" + str(l)[:40], "%s: harness output %r" % (label, str(l)[:200]), {"input": label, "op": op, "arg": arg[:2000]})
             continue
         if st != "ok":
-            continue                       # not a module the parser accepts: outside the property's quantifier
+            # not a module the parser accepts: outside the property's quantifier — except for the deterministic probes,
+            # which are valid by construction and must not silently drop out of the run
+            if meta["stream"] in ("fixed", "corpus"):
+                ctx.violation("probe-rejected-by-parser", "%s: a fixed probe is no longer accepted by the parser (%s %s)" % (
+                    label, st, dec("ERR:" + d["detail"][4:])[1] if d.get("detail", "").startswith("ERR:") else d.get("detail", "")[:80]),
+                    {"input": label, "wat": meta.get("text", arg)[:4000]})
+            continue
         r = {"label": label, "meta": meta, "d": d, "cls": set(d["cls"].split(",")) - {"-"}, "viol": []}
         for c in r["cls"]:
             dist["features"][c] = dist["features"].get(c, 0) + 1
@@ -296,10 +302,12 @@ def run(ctx):
                 a, b = r["text"].split("\n"), p2.decode("utf-8", "replace").split("\n")
                 first = next((x for x, y in zip(a, b) if x != y), a[len(b)] if len(a) > len(b) else "")
                 cause = "memarg:i64.store-align2-dropped" if ("i64.store-align2" in r["cls"] and "i64.store" in first) else \
-                        ("import-name:go-quoting" if first.strip().startswith("(import") else "idempotence:other:" + first.strip()[:30])
-                viol(r, cause, "print(parse(print)) differs from print at line %r" % first.strip())
+                        ("import-name:go-quoting" if first.strip().startswith("(import") else "idempotence:" + (re.match(r"\(?([A-Za-z_.0-9]+)", first.strip()) or re.match("()", "")).group(1))
+                viol(r, cause, "print(parse(print)) differs from print at line %r" % first.strip()[:160])
         if not r["w1ok"]:
             dist["not_assemblable"] += 1
+            if r["label"].split(":", 1)[-1].replace(".wat", "") in ("float-consts", "data-lengths-block", "data-lengths-64k", "plain"):
+                viol(r, "probe-rejected-by-assembler", "a fixed probe no longer assembles: %s" % (w1 if isinstance(w1, str) else ""))
             continue
         if d["w2"] == "=":
             r["w2"] = w1
